@@ -23,36 +23,10 @@ def programs(seed, n, nops):
                 sealing=(2 if i >= n - max(12, n // 12) else 0),
                 weights=dict(reopen=1.5, snap=0.5, it=0, tx=0, txop=0, gc=0.5, ks=0.2, delks=0, ingest=1, clear=0.5,
                              major=4, rotate=5, step=5, put=10, delete=3, batch=2, get=4, scan=3, misc=1))
-        # strategy-driven merges (which would apply the filter to an unpredictable subset of tables) need >= 4
-        # L0 runs: keep at most 3 rotations between two major compactions
-        def cap(g, t):
-            """at most 3 L0 tables between two major compactions: before an operation that adds t tables"""
-            if getattr(g, "nrot", 0) + t > 3:
-                g.emit("drain")
-                for h in g.handles:
-                    g.emit("major h%d" % h)
-                g.nrot = 0
-                g.rot = 0
-            g.nrot = getattr(g, "nrot", 0) + t
-        orig_rotate, orig_ingest, orig_reopen, orig_big = g.op_rotate, g.op_ingest, g.op_reopen, g.op_bigfill
-        def rot(g=g, orig=orig_rotate):
-            cap(g, 1)
-            orig()
-        def ing(g=g, orig=orig_ingest):
-            cap(g, 2)       # the flushed memtable and the ingested table
-            orig()
-        def big(g=g, orig=orig_big):
-            cap(g, 1)
-            orig()
+        # strategy-driven merges (which would apply the filter to an unpredictable subset of tables) need >= 4 L0 tables:
+        # Gen.cap keeps at most 3 between two major compactions (rotations, ingestions, fills)
         # after a reopen the implementation queues a compaction only for keyspaces with L0 runs, the model for every keyspace
         # with tables (it has no levels): empty the queue on both sides before going on, so that later `step`s take the same task
-        def reo(g=g, orig=orig_reopen):
-            orig()
-            if not g.sealing:
-                g.emit("drain")
-            else:
-                g.nrot = len(g.handles)      # recovery flushes the memtables rebuilt from sealed journals: up to one table each
-        g.op_rotate, g.op_ingest, g.op_reopen, g.op_bigfill = rot, ing, reo, big
         p = g.program(nops)
         g.lines = []
         g.emit("drain")
